@@ -148,6 +148,7 @@ class Ctx:
     loopvar: Optional[tuple] = None                           # (name, vtype)
     used: set = field(default_factory=set)                    # all declared names (variables, loop vars)
     frozen: set = field(default_factory=set)                  # names that must not be redeclared
+    names: Optional[list] = None                              # restricted pool for declared names / loop variables
     array_elems: Dict[str, list] = field(default_factory=dict)  # name -> (vtype, flat list of element expressions)
     depth: int = 3
     ascii_only: bool = True
@@ -439,7 +440,15 @@ def _decl_name(draw, ctx):
         name = draw(st.sampled_from(cands))
         _forget(ctx, name)
         return name
-    return draw(ident().filter(lambda n: n not in ctx.used))
+    return draw(fresh_name(ctx))
+
+
+def fresh_name(ctx):
+    if ctx.names:
+        free = [n for n in ctx.names if n not in ctx.used and _is_name(n)]
+        if free:
+            return st.sampled_from(free)
+    return ident().filter(lambda n: n not in ctx.used)
 
 
 @st.composite
@@ -532,7 +541,7 @@ def array_decl(draw, ctx, symbolic=None, name=None, max_rows=4, max_cols=5):
 @st.composite
 def for_loop(draw, ctx, symbolic=None, max_mode=12, allow_empty=True, body_max=3):
     vtype = draw(st.sampled_from(["int", "int", "int", "float", "bool", "str"]))
-    var = draw(ident().filter(lambda n: n not in ctx.used))
+    var = draw(fresh_name(ctx))
     if vtype in ("int", "float") and draw(st.integers(0, 2)) > 0:
         a = draw(st.integers(0, 6))
         ln = draw(st.integers(0 if allow_empty else 1, 4))
@@ -617,11 +626,12 @@ class Cfg:
     stmt_weight: int = 3
     array_args: bool = True
     max_mode: int = 12
+    names: Optional[list] = None     # restricted pool for variable / loop / parameter names
 
 
 @st.composite
 def script(draw, cfg=Cfg()):
-    ctx = Ctx(depth=cfg.depth, ascii_only=cfg.ascii_only)
+    ctx = Ctx(depth=cfg.depth, ascii_only=cfg.ascii_only, names=cfg.names)
     name = draw(ident())
     version = draw(st.one_of(st.sampled_from(["1.0", "0.0", "1.0", "12.5e-1", "1e5"]), real_lexeme()))
     target = ptype = None
@@ -632,10 +642,10 @@ def script(draw, cfg=Cfg()):
     elif cfg.options and draw(st.integers(0, 2)) == 0:
         ptype = A.Meta(draw(ident().filter(lambda n: n != "tdm")), draw(st.one_of(st.none(), option_args(ctx))))
     if cfg.params:
-        pn = ident(for_param=True)
+        pn = ident(for_param=True) if not cfg.names else st.sampled_from([n for n in cfg.names if not keyword.iskeyword(n)])
         if cfg.tdm:
             pn = pn.filter(lambda n: not (n[0] == "p" and n[1:].isdigit()))
-        ctx.params = draw(st.lists(pn, min_size=1, max_size=4, unique=True))
+        ctx.params = draw(st.lists(pn, min_size=1, max_size=4 if not cfg.names else 2, unique=True))
     if cfg.regs:
         ctx.regs = draw(st.lists(st.integers(0, 12).map(lambda n: "q%d" % n), min_size=1, max_size=4, unique=True))
     items = []
